@@ -246,8 +246,15 @@ func c13Eval(c c13Case) (ok bool, sig, detail string) {
 		}
 		return c13Judge(img, c.Body, fmt.Sprintf("body %d extended by %d bytes", c.Body, c.Len))
 	case "rekey":
-		// the finished entry of body c.Body stored under the name of another key, opened with that key
+		// the finished entry of body c.Body stored under the name of another key, opened with that key;
+		// Mask 1: same input digest, other argument digest; Mask 2: other input, same arguments
 		r2, d2 := c13Sums(c.Off)
+		switch c.Mask {
+		case 1:
+			r2 = rsum
+		case 2:
+			d2 = dsum
+		}
 		fs := faultos.Reset()
 		fs.Files[c13Name(r2, d2)] = file
 		data, openErr, _, pan := c13Open(r2, d2)
@@ -396,6 +403,8 @@ func init() {
 				for _, o := range bodies {
 					if o != b {
 						eval(c13Case{Kind: "rekey", Body: b, Off: o}, 400)
+						eval(c13Case{Kind: "rekey", Body: b, Off: o, Mask: 1}, 400)
+						eval(c13Case{Kind: "rekey", Body: b, Off: o, Mask: 2}, 400)
 						for m := 0; m < 3; m++ {
 							eval(c13Case{Kind: "wrongsum", Body: b, Off: o, Mask: m}, 400)
 						}
